@@ -33,10 +33,11 @@ var props = map[string]*propMeta{
 		},
 	},
 	"C19": {
-		level: "exploration", quickBudget: 100, thoroughBudget: 1500, stall: 15,
+		level: "exploration", driver: true, quickBudget: 100, thoroughBudget: 1500, stall: 15,
 		rule: "A case = (script rich in hash literals incl. keys whose printed forms coincide and duplicate keys, keys(), foreach over hashes, string()/sprintf of containers, several functions; 1-3 host objects with nested maps; optimizer flag) executed as Prepare, runs, second Prepare, one more run. " +
 			"It is executed under the canonical ascending order of every map the library ranges over (7 sites found by the rewriter), again under the same order on a fresh evaluator (other addresses), then under descending order, two rotations, two seeded per-call shuffles and ALL 23 non-identity permutations (exhaustive for maps of <= 4 entries), and twice under Go's native randomised order. " +
 			"Compared: the prepared program as Dump prints it (constants with types, main bytecode, functions sorted by name), every result, host-call trace, final variables, the program and the result after the second Prepare. A divergence is attributed to a single map-range site when varying that site alone reproduces it. " +
+			"One case in ten instead runs the SHIPPED driver (plain build, no seam) three times each for `bytecode` and `run -json` on a generated script and document: separate processes, separate hash seeds and address layouts, byte-identical output required. " +
 			"Non-trivial = at least one map with >= 2 keys was actually iterated under a non-canonical order; distinct = distinct digests of (script, program, results, traces, variables).",
 		exhaustivePart: "all 24 orders of every map with <= 4 entries, per case (same permutation index at every site)",
 		real:           libReal,
